@@ -154,7 +154,10 @@ func (s c05script) build(qid int) *hs.Prog {
 				if (qid+si+oi)%11 == 0 {
 					op.Err.Base = "" // the bare standard-library error
 				}
-				if sev := []string{"", "", "", "WARNING", "NOTICE", "LOG", "INFO", "DEBUG", "FATAL", "PANIC"}[(qid+2*si+3*oi)%10]; sev != "" {
+				if (qid+si+oi)%13 == 5 {
+					// the bare error, no decoration at all (a joined error among them): one failure, one ErrorResponse
+					op.Err.Base, op.Err.Wraps, op.Err.Cause = "", nil, 1+(qid+si+oi)%(len(hs.Causes)-1)
+				} else if sev := []string{"", "", "", "WARNING", "NOTICE", "LOG", "INFO", "DEBUG", "FATAL", "PANIC"}[(qid+2*si+3*oi)%10]; sev != "" {
 					op.Err.Wraps = append(op.Err.Wraps, hs.Wrap{K: 's', S: sev}) // a failure is a failure whatever its severity
 				}
 			}
@@ -516,7 +519,7 @@ func (ch c05) judge(c *core.Ctx, idx int, s c05script, text string, out []byte, 
 				case oWritten:
 					// checked below for every op
 				case oErr:
-					exp = append(exp, expMsg{T: 'E', Code: "22000", Msg: h.Ops[oi].Err.BaseText()})
+					exp = append(exp, expMsg{T: 'E', Code: h.Ops[oi].Err.Expect()['C'], Msg: h.Ops[oi].Err.BaseText()})
 					c.Count("error_returns", 1)
 					if r.Written != written {
 						return viol("written", "Written() differs from rows delivered", fmt.Sprintf("Written()=%d, rows delivered=%d", r.Written, written))
